@@ -69,18 +69,23 @@ func hC08Seg() {
 		}
 	}
 	declareLen := !targetEnveloped && verifChoose("declareLen", 2) == 1
+	// the backend may also fail the RPC (HTTP error status plus body for backends without envelopes)
+	var errCode uint32
+	if varyResp && verifChoose("backendFails", 2) == 1 {
+		errCode = 5
+	}
 
 	// reference run
 	ref := newPipe(cfg)
 	if !ref.buildOK {
 		return
 	}
-	ref.backend.script = &respScript{msgs: respMsgs, comp: backendComp, declareLen: declareLen}
+	ref.backend.script = &respScript{msgs: respMsgs, comp: backendComp, declareLen: declareLen, errCode: errCode, errMsg: "nf", errAfter: len(respMsgs)}
 	ref.serve(reqMsgs)
 
 	// segmented run
 	seg := newPipe(cfg)
-	seg.backend.script = &respScript{msgs: respMsgs, comp: backendComp, writeMode: mode, splitAt: splitAt, declareLen: declareLen}
+	seg.backend.script = &respScript{msgs: respMsgs, comp: backendComp, writeMode: mode, splitAt: splitAt, declareLen: declareLen, errCode: errCode, errMsg: "nf", errAfter: len(respMsgs)}
 	seg.backend.bufSize = bufSize
 	seg.body.chunk = chunk
 	seg.body.eofWithData = eofWithData
